@@ -229,7 +229,8 @@ Proof.
     rewrite Ecur in S1.
     assert (I' : inert (MS i0 done cur' (Some (S (List.length done), o_arg o)) false)).
     { rewrite <- Ecur. apply inert_after; [congruence | reflexivity |].
-      cbn [r_spec]. rewrite Sr, Hnl. reflexivity. }
+      unfold needs_value, takes_value. cbn [r_spec]. rewrite Hi, Sr, Hnl.
+      destruct (a_kind a); reflexivity. }
     destruct (IH cur' _ _ C St' Co' I') as (fl' & got' & S2 & I2 & St2 & Co2).
     exists fl', got'. cbn [repeat iter_occ].
     split; [|split; [exact I2|split; assumption]].
@@ -290,7 +291,8 @@ Proof.
       rewrite Ecur in S1.
       assert (I' : inert (MS i0 done cur' (Some (S (List.length done), o_arg o)) false)).
       { rewrite <- Ecur. apply inert_after; [congruence | reflexivity |].
-        cbn [r_spec]. rewrite Sr, Hnl. reflexivity. }
+        unfold needs_value, takes_value. cbn [r_spec]. rewrite Hi, Sr, Hnl.
+      destruct (a_kind a); reflexivity. }
       rewrite <- Etok in S1.
       destruct (counter_run p i0 done c given o a tok Na Hinc Hnl Hval Hflag (S k) cur' _ _ Ctok St' Co' I')
         as (fl' & got' & S2 & I2 & St2 & Co2).
